@@ -49,7 +49,7 @@ RULE = ("per seeded base scenario: exhaustive enumeration of termination kind x 
 COMPONENTS = dict(common.REAL_COMPONENTS)
 ASSUMPTIONS = ["fault points are enumerated completely per base scenario; base scenarios (config, outcome script, entry point) are sampled",
                "one call outstanding at a time (concurrent probes are C07's domain)"]
-BUDGETS = {"quick": (800, 60), "thorough": (60000, 290)}
+BUDGETS = {"quick": (2400, 90), "thorough": (130000, 285)}
 SHRINK_CAP = 150
 OP_KINDS = [("abort", None), ("base", "KeyboardInterrupt"), ("base", "SystemExit"), ("base", "GeneratorExit"),
             ("base", "CancelledError"), ("nested_coe", None), ("nested_ree", None)]
